@@ -9,6 +9,7 @@ of NamedTuple / namedtuple instances (`_replace`, `_asdict`, `_fields`, `_make`,
 Anything else (metaclasses, descriptors, `__getattr__` hooks, multiple inheritance) is `Unsupported`.
 """
 import ast
+import re
 
 from .minieval import Model, ModelRaise, Unsupported
 
@@ -16,13 +17,21 @@ _MISSING = object()
 
 
 class FieldSpec:
-    def __init__(self, default=_MISSING, default_factory=_MISSING, **kw):
+    def __init__(self, default=_MISSING, default_factory=_MISSING, init=True, kw_only=False):
         self.default = default
         self.default_factory = default_factory
+        self.init = init
+        self.kw_only = kw_only
 
 
-def dataclass_field(*a, default=_MISSING, default_factory=_MISSING, **kw):
-    return FieldSpec(default, default_factory)
+def dataclass_field(*a, default=_MISSING, default_factory=_MISSING, init=True, kw_only=False, repr=True, metadata=None, **kw):
+    if a or kw:  # compare= / hash= change the synthesised __eq__ / __hash__, which is not modelled
+        raise Unsupported(f"dataclasses.field({', '.join(list(map(repr, a)) + sorted(kw))})")
+    return FieldSpec(default, default_factory, bool(init), bool(kw_only))
+
+
+def _field_in_init(default):
+    return not (isinstance(default, FieldSpec) and not default.init)
 
 
 class _Method:
@@ -37,13 +46,18 @@ class UserClass(Model):
 
     def __init__(self, name, bases, ns, kind="plain", fields=(), dc_opts=None):
         d = object.__getattribute__(self, "__dict__")
-        d["_uc_name"], d["_uc_bases"], d["_uc_ns"], d["_uc_kind"], d["_uc_fields"], d["_uc_opts"] = name, [b for b in bases if isinstance(b, UserClass)], ns, kind, list(fields), dc_opts or {}
+        # `fields`: (name, default) or (name, default, "initvar") - an InitVar is a parameter of the synthesised __init__ that is handed
+        # to __post_init__ and never stored
+        params = [(f[0], f[1], f[2] if len(f) > 2 else "field") for f in fields]
+        d["_uc_name"], d["_uc_bases"], d["_uc_ns"], d["_uc_kind"], d["_uc_opts"] = name, [b for b in bases if isinstance(b, UserClass)], ns, kind, dc_opts or {}
         d["__name__"] = name
-        if kind == "plain":
-            for b in d["_uc_bases"]:
-                if b._uc_kind != "plain":
-                    d["_uc_kind"] = b._uc_kind
-                    d["_uc_fields"] = list(b._uc_fields) + [f for f in d["_uc_fields"] if f[0] not in {x[0] for x in b._uc_fields}]
+        for b in d["_uc_bases"]:
+            if b._uc_kind != "plain" and kind in ("plain", b._uc_kind):
+                d["_uc_kind"] = b._uc_kind
+                own = {p_[0]: p_ for p_ in params}
+                params = [own.pop(p_[0], p_) for p_ in b._uc_params] + [p_ for p_ in params if p_[0] in own]
+        d["_uc_params"] = params
+        d["_uc_fields"] = [(n_, dflt) for n_, dflt, k_ in params if k_ == "field"]
 
     def _uc_mro(self):
         out = [self]
@@ -58,6 +72,14 @@ class UserClass(Model):
             if name in c._uc_ns:
                 return c._uc_ns[name]
         return _MISSING
+
+    def __setattr__(self, name, value):
+        # `cls.attr = value` (in __init_subclass__, a class method, from outside): a class attribute, seen by the instances and the
+        # classes derived from this one
+        if name.startswith("_uc_") or name in ("__name__", "__qualname__", "__doc__"):
+            object.__setattr__(self, name, value)
+        else:
+            self._uc_ns[name] = value
 
     def __getattr__(self, name):
         if name.startswith("_uc_"):
@@ -85,17 +107,20 @@ class UserClass(Model):
     def __call__(self, *args, **kwargs):
         inst = UserInstance(self)
         if self._uc_kind in ("namedtuple", "dataclass") and (self._uc_kind == "namedtuple" or self._uc_lookup("__init__") is _MISSING):
-            names = [f[0] for f in self._uc_fields]
-            if len(args) > len(names):
-                raise ModelRaise("TypeError", f"{self._uc_name}() takes {len(names)} positional arguments but {len(args)} were given")
-            vals = dict(zip(names, args))
+            kw_all = bool(self._uc_opts.get("kw_only"))
+            init_params = [(n_, dflt, k_) for n_, dflt, k_ in self._uc_params if _field_in_init(dflt)]
+            positional = [n_ for n_, dflt, k_ in init_params if not (kw_all or (isinstance(dflt, FieldSpec) and dflt.kw_only))]
+            names = [n_ for n_, dflt, k_ in init_params]
+            if len(args) > len(positional):
+                raise ModelRaise("TypeError", f"{self._uc_name}() takes {len(positional)} positional arguments but {len(args)} were given")
+            vals = dict(zip(positional, args))
             for k, v in kwargs.items():
                 if k not in names:
                     raise ModelRaise("TypeError", f"{self._uc_name}() got an unexpected keyword argument '{k}'")
                 if k in vals:
                     raise ModelRaise("TypeError", f"{self._uc_name}() got multiple values for argument '{k}'")
                 vals[k] = v
-            for nm, default in self._uc_fields:
+            for nm, default, k_ in self._uc_params:
                 if nm in vals:
                     continue
                 if isinstance(default, FieldSpec):
@@ -103,18 +128,19 @@ class UserClass(Model):
                         vals[nm] = default.default_factory()
                     elif default.default is not _MISSING:
                         vals[nm] = default.default
-                    else:
+                    elif default.init:
                         raise ModelRaise("TypeError", f"{self._uc_name}() missing required argument '{nm}'")
                 elif default is not _MISSING:
                     vals[nm] = default
                 else:
                     raise ModelRaise("TypeError", f"{self._uc_name}() missing required argument '{nm}'")
             d = object.__getattribute__(inst, "__dict__")
-            for nm in names:
-                d[nm] = vals[nm]
+            for nm, default, k_ in self._uc_params:
+                if k_ == "field" and nm in vals:  # a field(init=False) without a default stays unset until __post_init__ assigns it
+                    d[nm] = vals[nm]
             post = self._uc_lookup("__post_init__")
             if self._uc_kind == "dataclass" and isinstance(post, _Method):
-                post.clo(inst)
+                post.clo(inst, *[vals[nm] for nm, default, k_ in self._uc_params if k_ == "initvar"])
             return inst
         init = self._uc_lookup("__init__")
         if isinstance(init, _Method):
@@ -213,7 +239,7 @@ class UserInstance(Model):
             return v
         if cls._uc_kind == "namedtuple":
             if name == "_replace":
-                return lambda **kw: cls(**{**{f[0]: d[f[0]] for f in cls._uc_fields}, **kw})
+                return lambda **kw: cls(**{**{f[0]: d[f[0]] for f in cls._uc_fields if _field_in_init(f[1])}, **kw})
             if name == "_asdict":
                 return lambda: {f[0]: d[f[0]] for f in cls._uc_fields}
             if name == "_fields":
@@ -233,7 +259,10 @@ class UserInstance(Model):
             raise ModelRaise("AttributeError", f"can't set attribute '{name}'")
         v = cls._uc_lookup(name)
         if isinstance(v, _Method) and v.kind == "property":
-            raise ModelRaise("AttributeError", f"property '{name}' has no setter")
+            if getattr(v, "setter", None) is None:
+                raise ModelRaise("AttributeError", f"property '{name}' has no setter")
+            v.setter(self, value)
+            return
         d[name] = value
 
     def _uc_tuple(self):
@@ -378,7 +407,9 @@ def build_class(cdef, interp):
     bases = []
     kind = "plain"
     if len(cdef.bases) == 1 and ast.unparse(cdef.bases[0]) in ("dict", "list", "set") and ast.unparse(cdef.bases[0]) not in interp.me.env:
-        return build_builtin_subclass(cdef, interp, {"dict": dict, "list": list, "set": set}[ast.unparse(cdef.bases[0])])
+        return build_builtin_subclass(cdef, interp, {"dict": dict, "list": list, "set": set}[ast.unparse(cdef.bases[0])], class_kwargs)
+    if len(cdef.bases) == 1 and isinstance(cdef.bases[0], ast.Name) and isinstance(interp.me.env.get(cdef.bases[0].id), type) and hasattr(interp.me.env[cdef.bases[0].id], "_cg_user_methods"):
+        return build_builtin_subclass(cdef, interp, interp.me.env[cdef.bases[0].id], class_kwargs)  # a class over a container class of the evaluated code
     for b in cdef.bases:
         bname = ast.unparse(b).split(".")[-1]
         if bname == "NamedTuple":
@@ -434,7 +465,13 @@ def build_class(cdef, interp):
             continue
         if isinstance(st, ast.FunctionDef):
             decs = {ast.unparse(d).split(".")[-1].split("(")[0] for d in st.decorator_list}
-            unknown = decs - {"staticmethod", "classmethod", "property", "lru_cache", "cache", "cached_property", "wraps", "abstractmethod", "override"}
+            if len(st.decorator_list) == 1 and ast.unparse(st.decorator_list[0]) == f"{st.name}.setter" and isinstance(ns.get(st.name), _Method) and ns[st.name].kind == "property":
+                # `@name.setter def name(self, value)`: the property gains its setter
+                prop = _Method("property", ns[st.name].clo)
+                prop.setter = interp.make_closure(st)
+                ns[st.name] = prop
+                continue
+            unknown = decs - {"staticmethod", "classmethod", "property", "lru_cache", "cache", "cached_property", "wraps", "abstractmethod", "override", "final"}
             if unknown:
                 raise Unsupported(f"decorator(s) {sorted(unknown)} on {cdef.name}.{st.name}")
             # methods resolve free names in the enclosing (module / function) scope, not in the class body
@@ -463,7 +500,7 @@ def build_class(cdef, interp):
             is_classvar = "ClassVar" in ann
             val = bi.me.ev(st.value) if st.value is not None else _MISSING
             if kind in ("namedtuple", "dataclass") and not is_classvar:
-                fields.append((st.target.id, val))
+                fields.append((st.target.id, val, "initvar" if kind == "dataclass" and re.match(r"(dataclasses\.)?InitVar\b", ann) else "field"))
                 if val is not _MISSING and not isinstance(val, FieldSpec):
                     ns[st.target.id] = val
             elif val is not _MISSING:
@@ -517,28 +554,57 @@ def _set_defining_class(ns, cls):
                 f = getattr(f, "__wrapped__", None) or (f.__closure__[0].cell_contents if getattr(f, "__closure__", None) else None)
                 if f is None or not callable(f):
                     break
+            if getattr(v, "setter", None) is not None and hasattr(v.setter, "_cg_fdef"):
+                v.setter._cg_defining_class = cls
 
 
-def build_builtin_subclass(cdef, interp, base):
-    """`class Aliases(dict): def __missing__(self, k): ...` - a container class over a builtin one: a real subclass of the builtin
-    whose methods are the evaluated ones (CPython's own container then calls __missing__ / the overridden protocol methods)."""
+def build_builtin_subclass(cdef, interp, base, class_kwargs=None):
+    """`class Aliases(dict): def __missing__(self, k): ...` - a container class over a builtin one (or over another such class): a
+    real subclass of the builtin whose methods are the evaluated ones (CPython's own container then calls __missing__ / the
+    overridden protocol methods, runs `__init_subclass__` with the class keywords, resolves `super()` and properties)."""
     if cdef.decorator_list:
         raise Unsupported(f"class decorator on {cdef.name}")
     ns = {"__slots__": ()}
     user = set()
+    closures = []
     for st in cdef.body:
         if isinstance(st, (ast.Pass,)) or (isinstance(st, ast.Expr) and isinstance(st.value, ast.Constant)):
             continue
         if isinstance(st, ast.Assign) and len(st.targets) == 1 and isinstance(st.targets[0], ast.Name) and st.targets[0].id == "__slots__":
             continue
-        if isinstance(st, ast.FunctionDef) and not st.decorator_list and st.name not in ("__new__", "__getattr__", "__getattribute__", "__setattr__", "__init_subclass__", "__init__"):
+        if isinstance(st, ast.FunctionDef) and st.name not in ("__new__", "__getattr__", "__getattribute__", "__setattr__", "__init__"):
+            decs = {ast.unparse(d).split(".")[-1].split("(")[0] for d in st.decorator_list}
+            if decs - {"staticmethod", "classmethod", "property", "override", "final", "abstractmethod"}:
+                raise Unsupported(f"decorator(s) {sorted(decs)} on {cdef.name}.{st.name}")
             clo = interp.make_closure(st)
-            ns[st.name] = (lambda c: (lambda self, *a, **k: c(self, *a, **k)))(clo)
+            closures.append(clo)
+            plain = (lambda c: (lambda self, *a, **k: c(self, *a, **k)))(clo)
+            if "staticmethod" in decs:
+                ns[st.name] = staticmethod((lambda c: (lambda *a, **k: c(*a, **k)))(clo))
+            elif "classmethod" in decs or st.name in ("__init_subclass__", "__class_getitem__"):
+                ns[st.name] = classmethod(plain)
+            elif "property" in decs:
+                ns[st.name] = property(plain)
+            else:
+                ns[st.name] = plain
             user.add(st.name)
             continue
+        if isinstance(st, (ast.Assign, ast.AnnAssign)):
+            tgt = st.targets[0] if isinstance(st, ast.Assign) and len(st.targets) == 1 else st.target if isinstance(st, ast.AnnAssign) else None
+            if isinstance(tgt, ast.Name):
+                if st.value is not None:
+                    ns[tgt.id] = interp.me.ev(st.value)
+                    user.add(tgt.id)
+                continue
         raise Unsupported(f"statement in the body of {cdef.name}({base.__name__}): {ast.unparse(st)[:60]}")
-    ns["_cg_user_methods"] = frozenset(user)
-    return type(cdef.name, (base,), ns)
+    ns["_cg_user_methods"] = frozenset(user | set(getattr(base, "_cg_user_methods", ())))
+    try:
+        cls = type(cdef.name, (base,), ns, **(class_kwargs or {}))
+    except TypeError as e:
+        raise ModelRaise("TypeError", f"class {cdef.name}: {e}")
+    for clo in closures:
+        clo._cg_defining_class = cls  # `super()` inside the methods: CPython's own super over the real class
+    return cls
 
 
 class EnumMember(UserInstance):
